@@ -1029,6 +1029,14 @@ func main() {
 				} else {
 					out.Emit(l, runBoundary(fixture{vex, f.dir, f.rel}, hx.UnHex(t[4])))
 				}
+			case "jsonmut":
+				f, ok := byKey[hx.UnHex(t[1])+"\x00"+hx.UnHex(t[2])]
+				if !ok || len(t) != 4 {
+					out.Emit(l, "hit=0 pk=0 purls=0 issues=fixture-missing bad=- drop=-")
+					continue
+				}
+				out.Emit(l, runJSONMut(f, hx.UnHex(t[3])))
+			case "fname":
 				if len(t) != 3 {
 					out.Emit(l, "bad-op")
 					continue
@@ -1102,6 +1110,21 @@ func main() {
 	// completeness of the harvest's extractor set against the public selection API
 	for _, k := range reachKinds {
 		out.Emit("reach "+k, runReach(exs, k))
+	}
+	// structural boundary documents (member deleted / key emptied / string emptied) for up to 2 package-yielding JSON fixtures per extractor
+	perExJ := map[string]int{}
+	for _, f := range fx {
+		if !yields[f.ex.Name()+"\x00"+f.rel] || perExJ[f.ex.Name()] >= 2 {
+			continue
+		}
+		cs := jsonMutCases(f, 70)
+		if len(cs) == 0 {
+			continue
+		}
+		perExJ[f.ex.Name()]++
+		for _, c := range cs {
+			out.Emit("jsonmut "+hx.Hex(f.ex.Name())+" "+hx.Hex(f.rel)+" "+hx.Hex(c), runJSONMut(f, c))
+		}
 	}
 	// non-default options: every Config field switched, over all fixtures of the extractor and the boundary names
 	perExV := map[string]int{}
